@@ -98,8 +98,8 @@ pub fn profile(name: &str) -> Profile {
         }
         "c04" => {
             //          Ld LdD LdF DrG GIn DrO  St  Sw Cas Rcu Snd Rcv StS Ver
-            p.writer = [1, 3, 1, 1, 0, 10, 6, 45, 12, 10, 0, 0, 5, 0];
-            p.mixed = [6, 8, 3, 6, 1, 10, 5, 30, 10, 8, 0, 0, 4, 1];
+            p.writer = [1, 3, 1, 1, 0, 10, 6, 40, 16, 10, 0, 0, 12, 0];
+            p.mixed = [6, 8, 3, 6, 1, 10, 5, 26, 14, 8, 0, 0, 8, 1];
             p.cas_pool = true;
             p.roles = [2, 5, 3];
             p.max_conts = 1;
@@ -1020,7 +1020,9 @@ where
             4..=5 => Strat::Pct { d: srng.range(1, 3) as u32, horizon: (nt * p.ops_hi * 25) as u64 },
             _ => {
                 let readers: Vec<usize> = plans.iter().filter(|x| x.1 != 1).map(|x| x.0).collect();
-                let victim = if readers.is_empty() { srng.below(nt as u64) as usize } else { *srng.pick(&readers) };
+                // readers are the usual victims (their windows are the narrow ones), but writers have windows
+                // too (compare_and_swap between its load and its exchange)
+                let victim = if readers.is_empty() || srng.chance(1, 3) { srng.below(nt as u64) as usize } else { *srng.pick(&readers) };
                 Strat::Adversary { victim, k: srng.range(1, 3) as u32, p: *srng.pick(&[2, 4, 8, 16]) }
             }
         };
